@@ -521,6 +521,16 @@ f.__signature__ = shared
 h.__signature__ = shared
 f.sibling = h
 ''', 'f', 'sigtools'),
+    ('partial-over-hand-built-upgraded-signature', '''
+P = signatures.UpgradedParameter
+def g(a, **kwargs): return inner(a, **kwargs)
+# a hand-built upgraded signature whose parameters were made without saying where they come from
+g.__signature__ = signatures.UpgradedSignature([P('a', P.POSITIONAL_OR_KEYWORD), P('kwargs', P.VAR_KEYWORD)])
+def h(b, c=1): return b
+h.__signature__ = signatures.UpgradedSignature([P('b', P.POSITIONAL_OR_KEYWORD), P('c', P.POSITIONAL_OR_KEYWORD, default=1)])
+f = functools.partial(g, z=1)
+f.sibling = h
+''', 'f', 'sigtools'),
     ('lru-cache', '''
 @functools.lru_cache()
 def f(a, *args, **kwargs): return 1
